@@ -193,6 +193,25 @@ func (s *Script) Text(sel []int, negate bool) string {
 
 // TextWith is Text with additional asserted formulas (used for the case-split stage of Discharge).
 func (s *Script) TextWith(sel []int, negate bool, with []*Term) string {
+	var goals []*Term
+	if sel == nil {
+		goals = s.Goals
+	} else {
+		for _, i := range sel {
+			goals = append(goals, s.Goals[i])
+		}
+	}
+	return s.TextFor(goals, negate, with)
+}
+
+// tfMu serialises term construction and printing during the (parallel) solving phase: the term factory
+// is not safe for concurrent use.
+var tfMu sync.Mutex
+
+// TextFor renders a script for explicit goal formulas.
+func (s *Script) TextFor(goals []*Term, negate bool, with []*Term) string {
+	tfMu.Lock()
+	defer tfMu.Unlock()
 	f := s.f
 	var sb strings.Builder
 	sb.WriteString("(set-logic ALL)\n")
@@ -207,14 +226,6 @@ func (s *Script) TextWith(sel []int, negate bool, with []*Term) string {
 	for _, a := range f.axioms {
 		sb.WriteString(a)
 		sb.WriteString("\n")
-	}
-	var goals []*Term
-	if sel == nil {
-		goals = s.Goals
-	} else {
-		for _, i := range sel {
-			goals = append(goals, s.Goals[i])
-		}
 	}
 	roots := append([]*Term{}, f.ranges...)
 	extra := s.relevantAxioms(append(append([]*Term{}, goals...), with...))
@@ -418,43 +429,55 @@ func (r *FnResult) Discharge(opt SolveOptions) {
 			defer wg.Done()
 			o := r.Obls[i]
 			name := base + "__" + sanitize(o.Kind) + fmt.Sprintf("_%d", i)
-			v, runs := Race(r.Script.Text([]int{i}, true), opt.Dir, name, opt.Timeout, opt.NeedTwo)
-			if v != "unsat" && v != "sat" && !takeDeep() {
-				o.Solver, o.Secs = winner(runs)
-				o.Detail = "not discharged within the first timeout; the longer stages were spent on other obligations of this function"
-				o.Result = "unknown"
-				return
+			tfMu.Lock()
+			parts := splitGoal(r.Script.f, r.Script.Goals[i])
+			tfMu.Unlock()
+			type pres struct {
+				v      string
+				runs   []SolverRun
+				detail string
 			}
-			if v != "unsat" && v != "sat" {
-				// cut stage: G is valid if not-e and not-G is unsatisfiable for every e in a set E of
-				// formulas (so not-G implies all of E) and E together with not-G is unsatisfiable.
-				if ok, cruns, n := r.cutStage(i, opt, name); ok {
-					v, runs = "unsat", append(runs, cruns...)
-					o.Solver, o.Secs = winner(cruns)
-					var tot float64
-					for _, rr := range cruns {
-						tot += rr.Secs
+			out := make([]pres, len(parts))
+			var pw sync.WaitGroup
+			for k, g := range parts {
+				pw.Add(1)
+				go func(k int, g *Term) {
+					defer pw.Done()
+					pn := name
+					if len(parts) > 1 {
+						pn = fmt.Sprintf("%s__part%d", name, k)
 					}
-					o.Secs = tot
-					o.Detail = fmt.Sprintf("discharged by a cut on %d sequence equalities between arguments of the same specification function (%d solver queries, all unsat)", n, n+1)
-					o.Result = "discharged"
-					return
+					v, runs, detail := r.proveGoal(g, pn, opt, takeDeep)
+					out[k] = pres{v, runs, detail}
+				}(k, g)
+			}
+			pw.Wait()
+			verdict := "unsat"
+			var all []SolverRun
+			var details []string
+			var secs float64
+			for k, pr := range out {
+				all = append(all, pr.runs...)
+				if pr.v != "unsat" && verdict != "sat" {
+					verdict = pr.v
 				}
-			}
-			if v != "unsat" {
-				// retry ladder: longer timeout
-				v2, runs2 := Race(r.Script.Text([]int{i}, true), opt.Dir, name, 4*opt.Timeout, opt.NeedTwo)
-				if v2 == "unsat" || v == "unknown" {
-					v, runs = v2, append(runs, runs2...)
+				if len(parts) > 1 {
+					if pr.v != "unsat" || pr.detail != "" {
+						details = append(details, fmt.Sprintf("part %d/%d: %s %s", k+1, len(parts), pr.v, pr.detail))
+					}
+				} else if pr.detail != "" {
+					details = append(details, pr.detail)
 				}
+				_, t := winner(pr.runs)
+				secs += t
 			}
-			o.Solver, o.Secs = winner(runs)
-			var ds []string
-			for _, rr := range runs {
-				ds = append(ds, fmt.Sprintf("%s:%s(%.2fs)", rr.Solver, rr.Answer, rr.Secs))
+			o.Solver, _ = winner(all)
+			o.Secs = secs
+			if len(parts) > 1 {
+				details = append([]string{fmt.Sprintf("goal split into %d conjuncts (one per return point / clause), each decided separately", len(parts))}, details...)
 			}
-			o.Detail = strings.Join(ds, " ")
-			switch v {
+			o.Detail = strings.Join(details, "; ")
+			switch verdict {
 			case "unsat":
 				o.Result = "discharged"
 			case "sat":
@@ -467,19 +490,80 @@ func (r *FnResult) Discharge(opt SolveOptions) {
 	wg.Wait()
 }
 
+// splitGoal: A => (c1 and ... and cn) is decided as the n goals A => ci (and a conjunction as its conjuncts).
+func splitGoal(f *TermFactory, g *Term) []*Term {
+	var out []*Term
+	switch {
+	case g.op == "and":
+		for _, a := range g.args {
+			out = append(out, splitGoal(f, a)...)
+		}
+	case g.op == "=>" && len(g.args) == 2 && g.args[1].op == "and":
+		for _, c := range g.args[1].args {
+			out = append(out, f.Implies(g.args[0], c))
+		}
+	default:
+		out = []*Term{g}
+	}
+	if len(out) > 24 {
+		return []*Term{g}
+	}
+	return out
+}
+
+// proveGoal: direct attempt, then the cut stage, then a longer timeout.
+func (r *FnResult) proveGoal(g *Term, name string, opt SolveOptions, takeDeep func() bool) (string, []SolverRun, string) {
+	text := func(with []*Term) string { return r.Script.TextFor([]*Term{g}, true, with) }
+	v, runs := Race(text(nil), opt.Dir, name, opt.Timeout, opt.NeedTwo)
+	if v == "unsat" || v == "sat" {
+		return v, runs, runDetail(runs, v)
+	}
+	if !takeDeep() {
+		return "unknown", runs, "not discharged within the first timeout; the longer stages were spent on other obligations of this function"
+	}
+	// cut stage: G is valid if not-e and not-G is unsatisfiable for every e in a set E of formulas (so
+	// not-G implies all of E) and E together with not-G is unsatisfiable.
+	if ok, cruns, n := r.cutStage(g, opt, name); ok {
+		return "unsat", cruns, fmt.Sprintf("discharged by a cut on %d sequence equalities between arguments of the same specification function (%d solver queries, all unsat)", n, n+1)
+	}
+	v2, runs2 := Race(text(nil), opt.Dir, name, 4*opt.Timeout, opt.NeedTwo)
+	runs = append(runs, runs2...)
+	if v2 == "unsat" || v2 == "sat" {
+		return v2, runs, runDetail(runs, v2)
+	}
+	return "unknown", runs, runDetail(runs, "unknown")
+}
+
+func runDetail(runs []SolverRun, v string) string {
+	if v == "unsat" {
+		return ""
+	}
+	var ds []string
+	for _, rr := range runs {
+		ds = append(ds, fmt.Sprintf("%s:%s(%.2fs)", rr.Solver, rr.Answer, rr.Secs))
+	}
+	return strings.Join(ds, " ")
+}
+
 // cutStage tries to discharge obligation i by cutting on the equalities suggested by extHints.
-func (r *FnResult) cutStage(i int, opt SolveOptions, name string) (bool, []SolverRun, int) {
+func (r *FnResult) cutStage(g *Term, opt SolveOptions, name string) (bool, []SolverRun, int) {
 	f := r.Script.f
-	hs := extHints(f, []*Term{r.Script.Goals[i]})
+	tfMu.Lock()
+	hs := extHints(f, []*Term{g})
 	seenH := map[int]bool{}
 	for _, h := range hs {
 		seenH[h.id] = true
 	}
-	for _, h := range extHintsMode(f, []*Term{r.Script.Goals[i]}, true) {
+	for _, h := range extHintsMode(f, []*Term{g}, true) {
 		if !seenH[h.id] {
 			hs = append(hs, h)
 		}
 	}
+	negs := make([]*Term, len(hs))
+	for k, h := range hs {
+		negs[k] = f.Not(h.args[0])
+	}
+	tfMu.Unlock()
 	if len(hs) == 0 {
 		return false, nil, 0
 	}
@@ -499,7 +583,7 @@ func (r *FnResult) cutStage(i int, opt SolveOptions, name string) (bool, []Solve
 		wg.Add(1)
 		go func(k int, e *Term) {
 			defer wg.Done()
-			v, runs := Race(r.Script.TextWith([]int{i}, true, []*Term{f.Not(e)}), opt.Dir, fmt.Sprintf("%s__cut%d", name, k), opt.Timeout, opt.NeedTwo)
+			v, runs := Race(r.Script.TextFor([]*Term{g}, true, []*Term{negs[k]}), opt.Dir, fmt.Sprintf("%s__cut%d", name, k), opt.Timeout, opt.NeedTwo)
 			out[k].ok, out[k].runs = v == "unsat", runs
 		}(k, e)
 	}
@@ -516,7 +600,7 @@ func (r *FnResult) cutStage(i int, opt SolveOptions, name string) (bool, []Solve
 	if len(es) == 0 {
 		return false, nil, 0
 	}
-	v, runs := Race(r.Script.TextWith([]int{i}, true, es), opt.Dir, name+"__cutfinal", opt.Timeout, opt.NeedTwo)
+	v, runs := Race(r.Script.TextFor([]*Term{g}, true, es), opt.Dir, name+"__cutfinal", opt.Timeout, opt.NeedTwo)
 	if v != "unsat" {
 		return false, nil, 0
 	}
